@@ -93,8 +93,9 @@ Definition init : lstate :=
      phase := LNone; background := false; batch := []; tph := TNone; wakers := 0; pending := None; spc := SNone;
      natural_exit := false; executed := []; accepted := []; refused := []; cbs := [] |}.
 
-(* the state after a Run() of nothing (the harness's set-up): the loop ran once and is stopped *)
-Definition init_after_setup : lstate := init <| canrun := true |>.
+(* the state after a Run() of a function that schedules nothing (the harness's set-up): the loop ran once and is
+   stopped; Proofs/LoopProps.v shows it is reachable from init *)
+Definition init_after_setup : lstate := init <| canrun := true |> <| cbs := [-1] |>.
 
 (* wakeup(): a non-blocking send; a receiver blocked in select takes it directly *)
 Definition send_token (s : lstate) : lstate :=
@@ -219,7 +220,10 @@ Definition run_sub (s : lstate) (id : Z) (stopped : bool) : option lstate :=
                                | Some j => match tj_kind j with TInterval => do_clear s1 t stopped | _ => None end
                                | None => do_clear s1 t stopped
                                end
-  | Some (KImmediate t) => Some (do_immediate s1 t)
+  | Some (KImmediate t) => match find_t (timers s) t with
+                           | Some j => match tj_kind j with TImmediate => Some (do_immediate s1 t) | _ => None end
+                           | None => Some (do_immediate s1 t)
+                           end
   | None => None
   end.
 
